@@ -585,20 +585,22 @@ class TaskScenario(ScenarioData):
                         succ_start = successor.get("start", self.scenarioIdx)
                         if not succ_start:
                             continue
-                        # Keep the gap the successor asked for between our end and its start
+                        # Keep the largest gap the successor asked for between our end and its
+                        # start (it may name this task and an enclosing container)
                         targets = self._selfAndAncestors()
+                        gap_hours = 0.0
                         for dep in successor.data[self.scenarioIdx].getAllDependencies():
                             if (
                                 isinstance(dep, dict)
                                 and any(dep.get("task") is target for target in targets)
                                 and not dep.get("onstart")
+                                and dep.get("gapduration")
                             ):
-                                gapduration = dep.get("gapduration")
-                                if gapduration:
-                                    from datetime import timedelta
+                                gap_hours = max(gap_hours, self._parse_duration(dep.get("gapduration"), calendar=True))
+                        if gap_hours:
+                            from datetime import timedelta
 
-                                    succ_start = succ_start - timedelta(hours=self._parse_duration(gapduration, calendar=True))
-                                break
+                            succ_start = succ_start - timedelta(hours=gap_hours)
                         if succ_start < latest_end:
                             latest_end = succ_start
 
